@@ -104,14 +104,20 @@ var clientShapes = []struct {
 	name   string
 	fields []httpwire.Field
 	authz  bool
+	value  string // the client's own Authorization value ("" = the Basic one)
 }{
-	{"none", nil, false},
-	{"pa-once", []httpwire.Field{{Name: "Proxy-Authorization", Value: "Basic " + base64.StdEncoding.EncodeToString([]byte(clientPA))}}, false},
-	{"pa-twice", []httpwire.Field{{Name: "Proxy-Authorization", Value: "Basic " + base64.StdEncoding.EncodeToString([]byte(clientPA))}, {Name: "X-Mid", Value: "1"}, {Name: "Proxy-Authorization", Value: "Basic " + base64.StdEncoding.EncodeToString([]byte(clientPA))}}, false},
-	{"pa-nominated", []httpwire.Field{{Name: "Connection", Value: "Proxy-Authorization"}, {Name: "Proxy-Authorization", Value: "Basic " + base64.StdEncoding.EncodeToString([]byte(clientPA))}}, false},
-	{"pa-mixed-case", []httpwire.Field{{Name: "pRoXy-AuThOrIzAtIoN", Value: "Basic " + base64.StdEncoding.EncodeToString([]byte(clientPA))}}, false},
-	{"authorization", []httpwire.Field{{Name: "Authorization", Value: "Basic " + base64.StdEncoding.EncodeToString([]byte(clientAuthz))}}, true},
-	{"authorization+pa", []httpwire.Field{{Name: "Authorization", Value: "Basic " + base64.StdEncoding.EncodeToString([]byte(clientAuthz))}, {Name: "Proxy-Authorization", Value: "Basic " + base64.StdEncoding.EncodeToString([]byte(clientPA))}}, true},
+	{"none", nil, false, ""},
+	{"pa-once", []httpwire.Field{{Name: "Proxy-Authorization", Value: "Basic " + base64.StdEncoding.EncodeToString([]byte(clientPA))}}, false, ""},
+	{"pa-twice", []httpwire.Field{{Name: "Proxy-Authorization", Value: "Basic " + base64.StdEncoding.EncodeToString([]byte(clientPA))}, {Name: "X-Mid", Value: "1"}, {Name: "Proxy-Authorization", Value: "Basic " + base64.StdEncoding.EncodeToString([]byte(clientPA))}}, false, ""},
+	{"pa-nominated", []httpwire.Field{{Name: "Connection", Value: "Proxy-Authorization"}, {Name: "Proxy-Authorization", Value: "Basic " + base64.StdEncoding.EncodeToString([]byte(clientPA))}}, false, ""},
+	{"pa-mixed-case", []httpwire.Field{{Name: "pRoXy-AuThOrIzAtIoN", Value: "Basic " + base64.StdEncoding.EncodeToString([]byte(clientPA))}}, false, ""},
+	{"authorization", []httpwire.Field{{Name: "Authorization", Value: "Basic " + base64.StdEncoding.EncodeToString([]byte(clientAuthz))}}, true, ""},
+	{"authorization-bearer", []httpwire.Field{{Name: "Authorization", Value: "Bearer client-token-abc"}}, true, "Bearer client-token-abc"},
+	{"authorization-digest", []httpwire.Field{{Name: "Authorization", Value: `Digest username="c", realm="r", nonce="n", uri="/x", response="00"`}}, true, `Digest username="c", realm="r", nonce="n", uri="/x", response="00"`},
+	{"authorization-malformed-basic", []httpwire.Field{{Name: "Authorization", Value: "Basic !!!not-base64"}}, true, "Basic !!!not-base64"},
+	{"authorization-lowercase-scheme", []httpwire.Field{{Name: "authorization", Value: "basic " + base64.StdEncoding.EncodeToString([]byte(clientAuthz))}}, true, "basic " + base64.StdEncoding.EncodeToString([]byte(clientAuthz))},
+	{"authorization-negotiate", []httpwire.Field{{Name: "Authorization", Value: "Negotiate YIIabc"}}, true, "Negotiate YIIabc"},
+	{"authorization+pa", []httpwire.Field{{Name: "Authorization", Value: "Basic " + base64.StdEncoding.EncodeToString([]byte(clientAuthz))}, {Name: "Proxy-Authorization", Value: "Basic " + base64.StdEncoding.EncodeToString([]byte(clientPA))}}, true, ""},
 }
 
 // sighting is one place where some bytes were received.
@@ -353,7 +359,11 @@ func scenario(x *explore.X, product bool) {
 			az := s.msg.Get("Authorization")
 			switch {
 			case shape.authz:
-				if len(az) != 1 || az[0] != "Basic "+base64.StdEncoding.EncodeToString([]byte(clientAuthz)) {
+				wantAz := "Basic " + base64.StdEncoding.EncodeToString([]byte(clientAuthz))
+				if shape.value != "" {
+					wantAz = shape.value
+				}
+				if len(az) != 1 || az[0] != wantAz {
 					x.Failf("client-authorization-replaced", "Authorization %q, want the client's own\n  %s", az, ctx)
 				}
 			case site != nil:
@@ -386,7 +396,7 @@ func scenario(x *explore.X, product bool) {
 
 func TestC06(t *testing.T) {
 	s := explore.NewSuite(t, "C06", "exploration",
-		"credential table = every subset of size <= 3 of 8 entries (exact host:port, *:port, host:*, *:*, other host, entries matching the upstream proxy) (93) x upstream(none, static URL with userinfo, static URL resolved through the table, PAC-selected) x target/kind(6: implicit/explicit port 80, CONNECT, inside MITM, other host) x client fields(7: Proxy-Authorization once/twice/nominated by Connection/mixed case, Authorization present); deviation-bounded (D=2 quick) and full product table x upstream x target with client fields as the only bounded dimension (D=1 quick, unbounded thorough); every byte received by the origin, by the upstream proxy and inside the tunnel is searched for the base64 token of every credential, each occurrence must be where expectCreds allows, and expected credentials must be present")
+		"credential table = every subset of size <= 3 of 8 entries (exact host:port, *:port, host:*, *:*, other host, entries matching the upstream proxy) (93) x upstream(none, static URL with userinfo, static URL resolved through the table, PAC-selected) x target/kind(6: implicit/explicit port 80, CONNECT, inside MITM, other host) x client fields(12: Proxy-Authorization once/twice/nominated by Connection/mixed case, client Authorization Basic / Bearer / Digest / Negotiate / malformed Basic / lower-case scheme); deviation-bounded (D=2 quick) and full product table x upstream x target with client fields as the only bounded dimension (D=1 quick, unbounded thorough); every byte received by the origin, by the upstream proxy and inside the tunnel is searched for the base64 token of every credential, each occurrence must be where expectCreds allows, and expected credentials must be present")
 	s.Assume = []string{"secrets are searched in their Basic (base64) form and the harness terminates TLS at the scripted origin", "simnet owns every connection"}
 	s.Add(explore.Scenario{Name: "bounded", Remote: true, Tiers: []string{"quick"}, MaxDev: map[string]int{"quick": 2},
 		Run: func(x *explore.X) { world.Run(t, x, func() { scenario(x, false) }) }})
